@@ -4,3 +4,4 @@ import Driver.StrHelpers
 import Driver.Names
 import Driver.Splicer
 import Driver.Decl
+import Driver.Scope
